@@ -30,8 +30,15 @@ const SEGS: [&str; 12] = ["..", ".", "", "a", "b", "pkgtools", "py-é", "x.y", "
 pub fn pkgpath(rng: &mut Rng) -> String {
     let mut s = String::new();
     if rng.chance(1, 8) { s.push('/'); }
-    let shape = rng.below(6);
+    let shape = rng.below(8);
     let segs: Vec<String> = match shape {
+        // k leading "..", then m ordinary names
+        6 | 7 => {
+            let mut v: Vec<String> = (0..rng.below(7)).map(|_| "..".to_string()).collect();
+            for _ in 0..rng.below(4) { v.push(rng.pick(&SEGS[3..]).to_string()); }
+            if rng.chance(1, 5) { let i = rng.below(v.len() + 1); v.insert(i, rng.pick_str(&[".", "", ".."]).to_string()); }
+            v
+        }
         0 => vec![rng.pick(&SEGS[3..]).to_string(), rng.pick(&SEGS[3..]).to_string()],
         1 => vec!["..".into(), "..".into(), rng.pick(&SEGS[3..]).to_string(), rng.pick(&SEGS[3..]).to_string()],
         _ => (0..rng.range(0, 6)).map(|_| rng.pick(&SEGS).to_string()).collect(),
